@@ -364,6 +364,263 @@ def oracle_mps(rep: Report, rng, count: int) -> None:
     rep.extra["oracle_mps_max_err"] = max(worst, rep.extra.get("oracle_mps_max_err", 0.0))
 
 
+
+# ------------------------------------------------------------------ oracle: emu-mps with every recorded orthogonality centre
+def _rand_factors(rng, torch, n, d, chi):
+    bonds = [1] + [rng.randint(1, chi) for _ in range(n - 1)] + [1]
+    fs = []
+    for i in range(n):
+        sh = (bonds[i], d, bonds[i + 1])
+        k = _prod(sh)
+        fs.append(torch.complex(torch.tensor([rng.gauss(0, 1) for _ in range(k)]).reshape(sh),
+                                torch.tensor([rng.gauss(0, 1) for _ in range(k)]).reshape(sh)).to(torch.complex128))
+    return bonds, fs
+
+
+def _embed_d(np, n, d, q, op):
+    out = np.array([[1.0 + 0j]])
+    for k in range(n):
+        out = np.kron(out, op if k == q else np.eye(d, dtype=complex))
+    return out
+
+
+def _ser_factors(fs):
+    return [[[z.real, z.imag] for z in f.reshape(-1).tolist()] for f in fs]
+
+
+def centre_case(np, torch, d, bonds, fs, prep, ops, cut):
+    """evaluate every MPS observable on a state whose *recorded* orthogonality centre was set by `prep`
+    (("none",) | ("orthogonalize", k) | ("apply", k, op) | ("correlation",)); returns {name: (reported, reference)}"""
+    from emu_mps.mps import MPS
+    from emu_mps.observables import EntanglementEntropy
+    import emu_mps.custom_callback_implementations as mcb
+    n = len(fs)
+    eig = ("r", "g") if d == 2 else ("r", "g", "x")
+    st = MPS([f.clone() for f in fs], orthogonality_center=None, num_gpus_to_use=0, eigenstates=eig)
+    psi = mps_to_dense(np, fs)
+    if prep[0] == "orthogonalize":
+        st.orthogonalize(prep[1])
+    elif prep[0] == "apply":
+        st.apply(prep[1], prep[2])
+        psi = _embed_d(np, n, d, prep[1], prep[2].numpy()) @ psi
+    elif prep[0] == "correlation":
+        st.get_correlation_matrix()
+    centre_before = st.orthogonality_center
+    out = {}
+    nrm2 = float(np.vdot(psi, psi).real)
+    eb = st.expect_batch(ops).numpy()                                # (n, len(ops)), unnormalised state
+    out["expect_batch"] = (eb, np.array([[np.vdot(psi, _embed_d(np, n, d, q, o.numpy()) @ psi) for o in ops] for q in range(n)]))
+    nop = np.zeros((d, d), dtype=complex)
+    nop[1, 1] = 1.0
+    nk = [_embed_d(np, n, d, q, nop) for q in range(n)]
+    out["occupation"] = (mcb.qubit_occupation_mps_impl(None, config=None, state=st, hamiltonian=None).numpy(),
+                         np.array([np.vdot(psi, nk[q] @ psi).real for q in range(n)]))
+    out["norm"] = (float(st.norm()) ** 2, nrm2)
+    out["correlation"] = (st.get_correlation_matrix().numpy(),
+                          np.array([[np.vdot(psi, nk[a] @ (nk[b] @ psi)).real for b in range(n)] for a in range(n)]))
+    o2 = ops[0]
+    ok = [_embed_d(np, n, d, q, o2.numpy()) for q in range(n)]
+    # NB (outside C13, which only uses the idempotent n): for a general operator the *diagonal* returned by
+    # get_correlation_matrix(operator=O) is <O_i>, not <O_i O_i> as its docstring says; compared here as implemented
+    out["correlation(operator)"] = (st.get_correlation_matrix(operator=o2).numpy(),
+                                    np.array([[(np.vdot(psi, ok[a] @ psi) if a == b else np.vdot(psi, ok[a] @ (ok[b] @ psi))).real
+                                               for b in range(n)] for a in range(n)]))
+    # occupation once more: the correlation matrix above left the centre on the last site
+    out["occupation after correlation"] = (mcb.qubit_occupation_mps_impl(None, config=None, state=st, hamiltonian=None).numpy(),
+                                           out["occupation"][1])
+    out["expect_batch after correlation"] = (st.expect_batch(ops).numpy(), out["expect_batch"][1])
+    stn = 1 / st.norm() * st
+    ent = float(EntanglementEntropy(cut).apply(state=stn))
+    sv = np.linalg.svd((psi / math.sqrt(nrm2)).reshape(d ** (cut + 1), -1), compute_uv=False) ** 2
+    sv = sv[sv > 1e-300]
+    out["entanglement entropy"] = (ent, float(-(sv * np.log(sv)).sum()))
+    out["occupation after entropy"] = (mcb.qubit_occupation_mps_impl(None, config=None, state=stn, hamiltonian=None).numpy(),
+                                       out["occupation"][1] / nrm2)
+    out["_scale"] = max(1.0, nrm2)
+    out["_centre"] = centre_before
+    return out
+
+
+def oracle_mps_centres(rep: Report, rng, count: int) -> None:
+    np, torch, tio = _imports()
+    worst = 0.0
+    for i in range(count):
+        d = 2 if i % 3 else 3
+        n = rng.randint(2, 6 if d == 2 else 4)
+        bonds, fs = _rand_factors(rng, torch, n, d, 3)
+        ops = torch.stack([torch.complex(torch.tensor([[rng.gauss(0, 1) for _ in range(d)] for _ in range(d)]),
+                                         torch.tensor([[rng.gauss(0, 1) for _ in range(d)] for _ in range(d)])).to(torch.complex128)
+                           for _ in range(3)])
+        preps = [("none",), ("correlation",)] + [("orthogonalize", k) for k in range(n)] + [("apply", k, ops[1]) for k in range(n)]
+        for prep in preps:
+            cut = rng.randrange(n - 1)
+            rep.case(key=("mps-centre", i, prep[0], prep[1] if len(prep) > 1 else -1), nontrivial=True, trace=False)
+            rep.hist("mps_centre_prep", f"d={d}/{prep[0]}")
+            data = dict(kind="mps-centre", d=d, bonds=bonds, factors=_ser_factors(fs), prep=[prep[0]] + ([prep[1]] if len(prep) > 1 else []),
+                        ops=_ser_factors(list(ops)), cut=cut)
+            try:
+                out = centre_case(np, torch, d, bonds, fs, prep, ops, cut)
+            except Exception as e:
+                rep.fail(f"emu-mps observable raised {type(e).__name__}: {e} (recorded centre set by {prep[0]})", data, klass=None)
+                continue
+            rep.hist("mps_recorded_centre", out["_centre"])
+            for name, val in out.items():
+                if name.startswith("_"):
+                    continue
+                err = float(np.abs(np.asarray(val[0]) - np.asarray(val[1])).max()) / out["_scale"]
+                worst = max(worst, err)
+                if not err <= RTOL_ORACLE:
+                    rep.fail(f"emu-mps {name} (d={d}, n={n}, recorded orthogonality centre {out['_centre']} set by {prep[0]}): differs from the "
+                             f"dense definition by {err:.3e} > {RTOL_ORACLE:.0e}", dict(data, observable=name))
+    rep.extra["oracle_mps_centres_max_err"] = max(worst, rep.extra.get("oracle_mps_centres_max_err", 0.0))
+
+
+# ------------------------------------------------------------------ oracle: order of the callbacks within one fill_results pass
+def order_case(np, torch, tio, rng, n_well, mask, order, fs, bonds, drive):
+    """fill_results-style pass: one shared (normalised, padded) state, observables applied in `order`"""
+    from emu_mps.mps import MPS
+    from emu_mps.mpo import MPO
+    from emu_mps.hamiltonian import make_H, update_H
+    from emu_mps.utils import extended_mps_factors, extended_mpo_factors, get_extended_site_index
+    from emu_mps.observables import EntanglementEntropy
+    import emu_mps.custom_callback_implementations as mcb
+    from emu_base.pulser_adapter import HamiltonianType
+    om, de, ph, U, cut = drive
+    state = MPS([f.clone() for f in fs], orthogonality_center=None, num_gpus_to_use=0)
+    normalized = 1 / state.norm() * state
+    ham = make_H(interaction_matrix=torch.tensor(U, dtype=torch.float64), hamiltonian_type=HamiltonianType.Rydberg, dim=2, num_gpus_to_use=0)
+    update_H(ham, torch.tensor(om, dtype=torch.complex128), torch.tensor(de, dtype=torch.complex128),
+             torch.tensor(ph, dtype=torch.complex128), torch.zeros(2, 2, dtype=torch.complex128))
+    if all(mask):
+        st, hm = normalized, ham
+    else:
+        w = torch.tensor(mask)
+        hm = MPO(extended_mpo_factors(ham.factors, w))
+        st = MPS(extended_mps_factors(normalized.factors, w), num_gpus_to_use=None,
+                 orthogonality_center=get_extended_site_index(w, normalized.orthogonality_center), eigenstates=normalized.eigenstates)
+    fns = {
+        "correlation": lambda: mcb.correlation_matrix_mps_impl(None, config=None, state=st, hamiltonian=hm).numpy(),
+        "occupation": lambda: mcb.qubit_occupation_mps_impl(None, config=None, state=st, hamiltonian=hm).numpy(),
+        "energy": lambda: mcb.energy_mps_impl(None, config=None, state=st, hamiltonian=hm).numpy(),
+        "variance": lambda: mcb.energy_variance_mps_impl(None, config=None, state=st, hamiltonian=hm).numpy(),
+        "second moment": lambda: mcb.energy_second_moment_mps_impl(None, config=None, state=st, hamiltonian=hm).numpy(),
+        "entropy": lambda: EntanglementEntropy(cut).apply(state=st).numpy(),
+    }
+    return {name: fns[name]() for name in order}
+
+
+def order_reference(np, tio, n_well, mask, fs, drive):
+    om, de, ph, U, cut = drive
+    n = len(mask)
+    psi = mps_to_dense(np, fs)
+    psi = psi / np.linalg.norm(psi)
+    full = np.zeros((2,) * n, dtype=complex)
+    full[tuple(slice(None) if m else 0 for m in mask)] = psi.reshape((2,) * n_well)
+    full = full.reshape(-1)
+    well = [q for q, m in enumerate(mask) if m]
+    Hf = np.zeros((2 ** n, 2 ** n), dtype=complex)
+    for k, q in enumerate(well):
+        Hf += tio.np_embed(n, q, (om[k] / 2) * (math.cos(ph[k]) * tio.SX + math.sin(ph[k]) * tio.SY) - de[k] * tio.NOP)
+    for a in range(n_well):
+        for b in range(a + 1, n_well):
+            Hf += U[a][b] * (tio.np_embed(n, well[a], tio.NOP) @ tio.np_embed(n, well[b], tio.NOP))
+    nk = [tio.np_embed(n, q, tio.NOP) for q in range(n)]
+    e, e2 = np.vdot(full, Hf @ full).real, np.vdot(Hf @ full, Hf @ full).real
+    sv = np.linalg.svd(full.reshape(2 ** (cut + 1), -1), compute_uv=False) ** 2
+    sv = sv[sv > 1e-300]
+    return {"occupation": np.array([np.vdot(full, nk[q] @ full).real for q in range(n)]),
+            "correlation": np.array([[np.vdot(full, nk[a] @ (nk[b] @ full)).real for b in range(n)] for a in range(n)]),
+            "energy": e, "second moment": e2, "variance": e2 - e * e, "entropy": float(-(sv * np.log(sv)).sum())}, 1.0 + abs(e2)
+
+
+def oracle_mps_order(rep: Report, rng, count: int) -> None:
+    np, torch, tio = _imports()
+    names = ["correlation", "occupation", "energy", "variance", "second moment", "entropy"]
+    worst = 0.0
+    for i in range(count):
+        n = rng.randint(2, 6)
+        mask = [True] * n
+        if rng.random() < 0.4 and n >= 3:
+            for q in rng.sample(range(n), rng.randint(1, n - 2)):
+                mask[q] = False
+        n_well = sum(mask)
+        bonds, fs = _rand_factors(rng, torch, n_well, 2, 4)
+        U = [[0.0] * n_well for _ in range(n_well)]
+        for a in range(n_well):
+            for b in range(a + 1, n_well):
+                U[a][b] = U[b][a] = rng.uniform(0, 20)
+        drive = ([rng.uniform(0, 10) for _ in range(n_well)], [rng.uniform(-15, 15) for _ in range(n_well)],
+                 [rng.choice([0.0, rng.uniform(-3, 3)]) for _ in range(n_well)], U, rng.randrange(n - 1))
+        ref, sc = order_reference(np, tio, n_well, mask, fs, drive)
+        orders = [names, list(reversed(names)), ["correlation", "occupation"], ["entropy", "occupation", "correlation", "energy"]]
+        for _ in range(4):
+            o = names[:]
+            rng.shuffle(o)
+            orders.append(o)
+        for order in orders:
+            rep.case(key=("mps-order", i, tuple(order)), nontrivial=True, trace=False)
+            data = dict(kind="mps-order", mask=mask, bonds=bonds, factors=_ser_factors(fs), order=order, om=drive[0], de=drive[1], ph=drive[2],
+                        U=U, cut=drive[4])
+            try:
+                got = order_case(np, torch, tio, rng, n_well, mask, order, fs, bonds, drive)
+            except Exception as e:
+                rep.fail(f"emu-mps observables in order {order} raised {type(e).__name__}: {e}", data, klass=None)
+                continue
+            for name, val in got.items():
+                s_ = sc if name in ("energy", "second moment", "variance") else 1.0
+                err = float(np.abs(np.asarray(val) - np.asarray(ref[name])).max()) / s_
+                worst = max(worst, err)
+                if not err <= RTOL_ORACLE:
+                    rep.fail(f"emu-mps {name} evaluated in the callback order {order}: differs from the dense definition by {err:.3e} "
+                             f"> {RTOL_ORACLE:.0e} (the result depends on what ran before it on the shared state)", dict(data, observable=name))
+    rep.extra["oracle_mps_order_max_err"] = max(worst, rep.extra.get("oracle_mps_order_max_err", 0.0))
+
+
+# ------------------------------------------------------------------ oracle: real emu-mps runs, observable lists in different orders
+def oracle_mps_runs(rep: Report, rng, count: int) -> None:
+    np, torch, tio = _imports()
+    from harness import compat
+    from harness.props import c29
+    import pulser.backend as pb
+    worst = 0.0
+    for i in range(count):
+        n = rng.randint(3, 4)
+        case = c29.gen_seq(rng, n, rng.randint(2, 4))
+        tt = [case["dt"] * k for k in range(case["steps"] + 1)]
+        ev = [0.5, 1.0] if case["steps"] % 2 == 0 else [1.0]
+
+        def run(obs_names):
+            mk = {"correlation_matrix": pb.CorrelationMatrix, "occupation": pb.Occupation, "energy": pb.Energy}
+            data = compat.make_sequence_data(case["om"], case["de"], case["ph"], case["U"], tt)
+            cfg = compat.mps_config(observables=[mk[x](evaluation_times=ev) for x in obs_names], dt=int(case["dt"]), precision=1e-10,
+                                    optimize_qubit_ordering=False)
+            r = compat.run_mps(data, cfg)
+            return {x: [np.asarray(torch.as_tensor(r.get_result(x, t)).tolist()) for t in ev] for x in obs_names}
+        rep.case(key=("mps-run", i), nontrivial=True, trace=False)
+        data = dict(kind="mps-run", **case)
+        try:
+            alone = run(["occupation"])
+            variants = {"[CorrelationMatrix, Occupation]": run(["correlation_matrix", "occupation"]),
+                        "[Energy, CorrelationMatrix, Occupation]": run(["energy", "correlation_matrix", "occupation"]),
+                        "[Occupation, CorrelationMatrix]": run(["occupation", "correlation_matrix"])}
+            ref = c29.reference(case, case["ph"])
+            for name, got in variants.items():
+                for k in range(len(ev)):
+                    dd = float(np.abs(got["occupation"][k] - alone["occupation"][k]).max())
+                    dc = float(np.abs(np.diag(got["correlation_matrix"][k]) - got["occupation"][k]).max())
+                    worst = max(worst, dd, dc)
+                    if dd > 1e-8 or dc > 1e-8:
+                        rep.fail(f"emu-mps run with observables {name}: occupation differs from the run with [Occupation] alone by {dd:.3e} "
+                                 f"(and from the diagonal of its own correlation matrix by {dc:.3e}) at evaluation time {ev[k]}",
+                                 dict(data, variant=name))
+            dref = float(np.abs(alone["occupation"][-1] - ref[0]).max())
+            if dref > 1e-3:
+                rep.fail(f"emu-mps run: final occupation differs from the expm reference by {dref:.3e}", dict(data, variant="reference"))
+        except Exception as e:
+            rep.fail(f"emu-mps run raised {type(e).__name__}: {e}", data, klass=None)
+    rep.extra["oracle_mps_runs_max_diff"] = max(worst, rep.extra.get("oracle_mps_runs_max_diff", 0.0))
+
+
 # ------------------------------------------------------------------ check
 def check(rep: Report, tier: str, seed: int) -> None:
     import time
@@ -372,7 +629,10 @@ def check(rep: Report, tier: str, seed: int) -> None:
     rep.rule = ("cases from one PRNG; correspondence: dyadic unnormalised state vectors (1-8 qubits), Hermitian and general "
                 "dyadic matrices (1-5), C06-style dyadic Hamiltonian parameters with exact (cos,sin) tables, CPU and batched "
                 "h_eff; oracle: gaussian normalised states / mixed states for emu-sv, gaussian unnormalised non-canonical MPS "
-                "(2-8 atoms, bond <= 4, 0..n-2 dark atoms, random cut for the entropy) for emu-mps")
+                "(2-8 atoms, bond <= 4, 0..n-2 dark atoms, random cut for the entropy) for emu-mps; every MPS observable (incl. expect_batch with 3 "
+                "random operators, correlation with a custom operator) on qubit and qutrit states whose recorded orthogonality centre is None / "
+                "every site (set by orthogonalize, apply, get_correlation_matrix); 8 callback orders per shared fill_results-style state; real "
+                "emu-mps runs of 3-4 atoms with [CorrelationMatrix, Occupation] (and two more lists) vs [Occupation] alone")
     rep.assumptions = [
         "emu-mps observables, fill_results normalisation, dark-atom padding and entanglement entropy are validated against dense "
         "definitions (1e-9), not proved",
@@ -385,6 +645,9 @@ def check(rep: Report, tier: str, seed: int) -> None:
     correspondence(rep, seeded(seed * 7919 + 13), tier)
     oracle_sv(rep, seeded(seed * 104729 + 13), 24 if tier == "quick" else 300)
     oracle_mps(rep, seeded(seed * 1299709 + 13), 60 if tier == "quick" else 600)
+    oracle_mps_centres(rep, seeded(seed * 15485863 + 13), 6 if tier == "quick" else 120)
+    oracle_mps_order(rep, seeded(seed * 32452843 + 13), 6 if tier == "quick" else 100)
+    oracle_mps_runs(rep, seeded(seed * 49979687 + 13), 2 if tier == "quick" else 20)
     rep.extra["t_total_s"] = round(time.time() - t0, 1)
     if rep.broken and not rep.failing:
         search(rep, seed, 100 if tier == "quick" else 1000)
@@ -436,6 +699,47 @@ def replay(rep: Report, path: str) -> int:
             err = abs(occ - np.array([np.vdot(psi, nk[k] @ psi).real for k in range(n_well)])).max()
             print(f"replay: emu-mps occupation (well-prepared part) n={n_well} err {err:.3e}", "FAILS" if err > RTOL_ORACLE else "holds now")
             bad += err > RTOL_ORACLE
+        elif d.get("kind") == "mps-centre":
+            dd, bonds = d["d"], d["bonds"]
+            fs = [torch.tensor([complex(*z) for z in f], dtype=torch.complex128).reshape(bonds[i], dd, bonds[i + 1])
+                  for i, f in enumerate(d["factors"])]
+            ops = torch.stack([torch.tensor([complex(*z) for z in o], dtype=torch.complex128).reshape(dd, dd) for o in d["ops"]])
+            pr = d["prep"]
+            prep = (pr[0],) if len(pr) == 1 else ((pr[0], pr[1], ops[1]) if pr[0] == "apply" else (pr[0], pr[1]))
+            out = centre_case(np, torch, dd, bonds, fs, prep, ops, d["cut"])
+            errs = {k: float(np.abs(np.asarray(v[0]) - np.asarray(v[1])).max()) / out["_scale"] for k, v in out.items() if not k.startswith("_")}
+            w = max(errs.items(), key=lambda kv: kv[1])
+            print(f"replay: emu-mps, recorded centre {out['_centre']} (set by {pr[0]}): worst {w[0]} err {w[1]:.3e}",
+                  "FAILS" if w[1] > RTOL_ORACLE else "holds now")
+            bad += w[1] > RTOL_ORACLE
+        elif d.get("kind") == "mps-order":
+            bonds, mask = d["bonds"], d["mask"]
+            fs = [torch.tensor([complex(*z) for z in f], dtype=torch.complex128).reshape(bonds[i], 2, bonds[i + 1])
+                  for i, f in enumerate(d["factors"])]
+            drive = (d["om"], d["de"], d["ph"], d["U"], d["cut"])
+            import random
+            got = order_case(np, torch, tio, random.Random(0), sum(mask), mask, d["order"], fs, bonds, drive)
+            ref, sc = order_reference(np, tio, sum(mask), mask, fs, drive)
+            errs = {k: float(np.abs(np.asarray(v) - np.asarray(ref[k])).max()) / (sc if k in ("energy", "second moment", "variance") else 1.0)
+                    for k, v in got.items()}
+            w = max(errs.items(), key=lambda kv: kv[1])
+            print(f"replay: emu-mps callbacks in order {d['order']}: worst {w[0]} err {w[1]:.3e}", "FAILS" if w[1] > RTOL_ORACLE else "holds now")
+            bad += w[1] > RTOL_ORACLE
+        elif d.get("kind") == "mps-run":
+            from harness import compat
+            import pulser.backend as pb
+            case = {x: d[x] for x in ("n", "steps", "om", "de", "ph", "U", "dt")}
+            tt = [case["dt"] * k for k in range(case["steps"] + 1)]
+
+            def run(obs):
+                data_ = compat.make_sequence_data(case["om"], case["de"], case["ph"], case["U"], tt)
+                cfg = compat.mps_config(observables=[o(evaluation_times=[1.0]) for o in obs], dt=int(case["dt"]), precision=1e-10,
+                                        optimize_qubit_ordering=False)
+                return np.asarray(torch.as_tensor(compat.run_mps(data_, cfg).get_result("occupation", 1.0)).tolist())
+            e = float(np.abs(run([pb.CorrelationMatrix, pb.Occupation]) - run([pb.Occupation])).max())
+            print(f"replay: emu-mps run, [CorrelationMatrix, Occupation] vs [Occupation]: occupation differs by {e:.3e}",
+                  "FAILS" if e > 1e-8 else "holds now")
+            bad += e > 1e-8
         else:
             print("replay: no stored input for", f["what"][:100])
     return 1 if bad else 0
